@@ -74,12 +74,19 @@ NormF(t, m, e) == IF m = 0 THEN <<t, 0, 0>>
 \* intermediate fits TLC's integers
 MantMax(t) == IF t = "S" THEN 16777216 ELSE 1073741824
 \* a float of type t from m * 2^e, or OOM when it is not exactly representable in the window
+RECURSIVE BitLen(_)
+BitLen(m) == IF m = 0 THEN 0 ELSE 1 + BitLen((IF m < 0 THEN 0 - m ELSE m) \div 2)
+\* binary exponent limits of the types: |x| < 2^128 (SINGLE), 2^1024 (DOUBLE); beyond = overflow
+ExpMax(t) == IF t = "S" THEN 128 ELSE 1024
 MkF(t, m, e) == LET v == NormF(t, m, e)
-                IN IF v[2] >= MantMax(t) \/ v[2] <= 0 - MantMax(t) \/ v[3] > 60 \/ v[3] < -60 THEN OOM ELSE v
+                IN IF v[2] >= MantMax(t) \/ v[2] <= 0 - MantMax(t) THEN OOM
+                   ELSE IF v[2] # 0 /\ BitLen(v[2]) + v[3] > ExpMax(t) THEN Err("OVF")
+                   ELSE IF v[3] > 1100 \/ v[3] < -100 THEN OOM ELSE v
 FZero(t) == <<t, 0, 0>>
 
 \* shift a mantissa left by k bits: <<ok, m * 2^k>>
-ShiftL(m, k) == IF k > 30 THEN <<m = 0, 0>>
+ShiftL(m, k) == IF k = 31 /\ m = -1 THEN <<TRUE, MinL>>          \* -2^31 is representable
+                ELSE IF k > 30 THEN <<m = 0, 0>>
                 ELSE IF k <= 0 THEN <<TRUE, m>>
                 ELSE SMul(m, Pow2(k))
 
@@ -102,8 +109,6 @@ FDiv(t, a, b) == IF b[2] = 0 THEN Err("DIV0")
                               IN IF sh[1] /\ sh[2] % mb = 0 THEN MkF(t, sh[2] \div mb, a[3] - 20 - b[3]) ELSE OOM
 
 \* sign of a - b for floats: -1, 0, 1 (2 = out of model)
-RECURSIVE BitLen(_)
-BitLen(m) == IF m = 0 THEN 0 ELSE 1 + BitLen(Abs(m) \div 2)
 FCmp(a, b) ==
     IF Sgn(a[2]) # Sgn(b[2]) THEN (IF Sgn(a[2]) < Sgn(b[2]) THEN -1 ELSE 1)
     ELSE IF a[2] = 0 THEN 0
